@@ -514,6 +514,8 @@ def check_type_normalisation(ctx, m):
                 ctx.ob("R03.5", "%s.__init__:element" % c.q, not odd, found=odd or "every class test and every conversion reads the element `%s`" % ev_, required="the normalisation of an object looks at that object only", mod=c.mod, node=x,
                        sig="type-element")
             K2 = m.resolve_class(c.mod, ast.unparse(makes[-1]))
+            if c.q in HANDS_OVER:
+                continue
             for k in keeps:
                 K1 = m.resolve_class(c.mod, ast.unparse(k))
                 if K1 is None or K2 is None:
@@ -522,6 +524,10 @@ def check_type_normalisation(ctx, m):
                 ctx.ob("R03.5", "%s.__init__:objects" % c.q, m.is_subclass(K1, K2), found="objects that are %s are kept as they are, the others become %s" % (K1.q, K2.q),
                        required="only objects that already are %s (whose attributes __repr__ / __hash__ / adjoints of this type read) are kept unconverted" % K2.q, mod=c.mod, node=x, sig="type-objects")
     return n
+
+
+# constructors whose own pre-normalisation is not the one that counts: they pass the objects on to the base constructor, which normalises them (and is checked here)
+HANDS_OVER = {"discopy.tensor.Dim": "Dim.__init__ only removes the unit dimension and calls rigid.Ty.__init__(*dims), whose normalisation R03.5 checks"}
 
 
 MUTATING = ("append", "extend", "insert", "pop", "remove", "clear", "sort", "reverse", "update", "add", "discard", "setdefault", "popitem")
